@@ -1,5 +1,6 @@
 import OpusProofs.EncSkelToc
 import OpusProofs.EncSkelParse
+import OpusProofs.EncSkelWf
 /-
   Property C02 — "Every encoded packet is valid and decodes in lock-step with the encoder".
 
@@ -11,6 +12,22 @@ import OpusProofs.EncSkelParse
 -/
 namespace OpusProps.C02
 open Opus Opus.EncSkel Opus.EncDecide Opus.EncSkel.Proofs
+
+def exSt : St :=
+  { fs := 48000, channels := 2, application := 2049, useVbr := 0, userBitrate := 64000, forceChannels := -1000,
+    signalType := -1000, userBandwidth := -1000, maxBandwidth := 1105, userForcedMode := -1000, lfe := 0, useDtx := 0,
+    fecConfig := 0, variableDuration := 5000, complexity := 9, lossPerc := 0, useInBandFEC := 0, energyMasking := 0,
+    streamChannels := 2, mode := 1002, prevMode := 1002, prevChannels := 2, prevFramesize := 960, bandwidth := 1105,
+    autoBandwidth := 1105, silkBwSwitch := 0, first := 0, voiceRatio := -1, detectedBandwidth := 0, nbNoActivity := 0,
+    nonfinalFrame := 0, bitrateBps := 64000, toMono := 0, lbrrCoded := 0, allowBwSwitch := 0, inWBmode := 0,
+    opusCanSwitch := 0, silkUseDtx := 0 }
+def exFr (cm : Int) : FrameOr :=
+  { aValid := 1, activity := 1, silkBitRateIn := 0, silkRet := 0, nBytes := 0, isr := 0, switchReady := 0, allowBw := 0,
+    inWB := 0, tellA := 0, tellB := 0, tellC := 0, tellD := 1, tellE := 1000, stripTo := 0, celtRed1 := 0,
+    celtMain := cm, celtRed2 := 0, used1 := 0, used2 := 0 }
+def exOr (cm : Int) : NatOr :=
+  { isSilence := 0, aValid := 1, aBandwidth := 20, vr0 := 10, vr1 := 10, vr2 := 10, modeVoice := 64000, modeMusic := 10000,
+    rands := [], frames := [exFr cm, exFr cm, exFr cm] }
 
 /-- Clause "returns a well-formed Opus packet whose announced duration equals the submitted frame
     size", ToC part: for EVERY legal (mode, frame duration, bandwidth) — SILK 10/20/40/60 ms NB/MB/WB,
@@ -84,29 +101,32 @@ theorem repack_output_parses (cfg : Nat) (lens : List Nat) (maxlen : Nat) (pad :
 example : outRange 252 [3, 0, 300] 400 true = .ok { size := 400, hdr := [255, 195, 92, 3, 0] } ∧
     FramingSpec.frameDur48 252 * 3 ≤ 5760 := by decide +kernel
 
-/- FULL STATEMENT (design §7.C02 `encode_wellformed`), not yet proved in full:
-     under the contracts every success return `r` of the skeleton has `1 ≤ r ≤ out_data_bytes` and the
-     emitted bytes (`pkt.hdr ++ frames ++ zero padding` for ANY frame contents of the lengths `pkt.lens`)
-     satisfy `parseImpl false … = .ok v` with `v.sizes = pkt.lens` and `v.count · spf(Fs) = frame_size`.
-   Proved below (`encode_wellformed_partial`): the return range on every path, and the parse for the
-   code-0 structure `ToC ++ payload` that every VBR single-frame return and every DTX return has
-   (`FramePost.vbr`, `FramePost.dtx1`: `hdr = [toc]`, `ret = payload + 1`).
-   and `repack_output_parses` above: every header the repacketiser contract emits parses back to the
-   frame list.
-   Missing (bookkeeping between the two): (1) carrying `pkt.hdr = (outRange …).hdr` / `pkt.lens` through
-   the four return paths of `encodeNative` so that `repack_output_parses` applies to `pkt` itself;
-   (2) the duration equation `count · samples_per_frame(toc) = frame_size` along the decision chain
-   (needs `mode ≠ CELT → frame_size ≥ Fs/100` through `decide'`, then `genToc_roundtrip`).
-   Both are covered on the implementation by the tie (header bytes and frame lengths compared exactly)
-   and by the search (`opus_packet_parse` + `opus_packet_get_nb_samples` on every packet). -/
-theorem encode_wellformed_partial (s : St) (fuzz : Bool) (fsz out : Int) (o : NatOr)
-    (he : entryCheck s fsz out = none) (hok : (encodeNative s fuzz fsz out o).ok = true) :
+/-- Clause "returns a well-formed Opus packet whose announced duration equals the submitted frame
+    size", at full strength: for all oracle behaviours within the contracts, all settings/states within
+    `stOk`, all legal frame sizes and all `out_data_bytes` (not 1 byte for 100 ms), on EVERY return path
+    (low-budget ToC-only packet, single frame VBR/CBR/DTX, repacketised multi-frame packet) and for ANY
+    frame contents of the recorded lengths: the emitted bytes `header ++ frames ++ zero padding` are
+    accepted by `opus_packet_parse_impl` (the C06 model, proved sound and complete for RFC 6716), which
+    reports exactly those frame sizes, announces `count · samples_per_frame(Fs) = frame_size`, and consumes
+    exactly `ret` bytes — the whole packet, with `1 ≤ ret ≤ out_data_bytes`. -/
+theorem encode_wellformed (s : St) (fuzz : Bool) (fsz out : Int) (o : NatOr)
+    (he : entryCheck s fsz out = none) (hok : (encodeNative s fuzz fsz out o).ok = true)
+    (frames : List Bytes) (hfl : frames.map List.length = (encodeNative s fuzz fsz out o).pkt.lens) :
     (1 ≤ (encodeNative s fuzz fsz out o).ret ∧ (encodeNative s fuzz fsz out o).ret ≤ out) ∧
-    (∀ (toc : Nat) (payload : Bytes), toc % 4 = 0 → payload.length ≤ 1275 →
-      Framing.parseImpl false ([toc] ++ payload) =
-        .ok { toc, count := 1, sizes := [payload.length], payloadOffset := 1, padLen := 0,
-              packetOffset := payload.length + 1 }) := by
+    ∃ v, Framing.parseImpl false
+        (pktBytes (encodeNative s fuzz fsz out o).pkt.hdr frames (encodeNative s fuzz fsz out o).pkt.size) = .ok v ∧
+      v.sizes = (encodeNative s fuzz fsz out o).pkt.lens ∧
+      (v.count : Int) * Framing.samplesPerFrame v.toc s.fs.toNat = fsz ∧
+      (v.packetOffset : Int) = (encodeNative s fuzz fsz out o).ret ∧
+      (pktBytes (encodeNative s fuzz fsz out o).pkt.hdr frames (encodeNative s fuzz fsz out o).pkt.size).length =
+        v.packetOffset :=
   have h := encodeNative_post s fuzz fsz out o he hok
-  exact ⟨⟨h.retLo, h.retHi⟩, fun toc payload h4 hl => parse_code0 toc payload h4 hl⟩
+  ⟨⟨h.retLo, h.retHi⟩, encode_parses s fuzz fsz out o he hok frames hfl⟩
+
+/-- 64 kb/s CBR, 60 ms, 48 kHz stereo: three CELT frames, header FF 43 03 (code 3, CBR, padding). -/
+example : (encodeNative OpusProps.C02.exSt false 2880 4000 (OpusProps.C02.exOr 158)).ok = true ∧
+    (encodeNative OpusProps.C02.exSt false 2880 4000 (OpusProps.C02.exOr 158)).pkt.lens = [158, 158, 158] ∧
+    (encodeNative OpusProps.C02.exSt false 2880 4000 (OpusProps.C02.exOr 158)).pkt.hdr = [255, 67, 3] := by
+  decide +kernel
 
 end OpusProps.C02
